@@ -797,6 +797,12 @@ class Exporter {
         if (auto *MD = dyn_cast<CXXMethodDecl>(FD)) {
             j.str("cls", qname(MD->getParent()));
             j.str("clsf", qnameFull(MD->getParent()));
+            if (auto *SD = dyn_cast<ClassTemplateSpecializationDecl>(MD->getParent())) {
+                std::string              ts;
+                llvm::raw_string_ostream tos(ts);
+                printTemplateArgumentList(tos, SD->getTemplateArgs().asArray(), PP);
+                j.str("clstargs", tos.str());
+            }
             j.boolean("const", MD->isConst());
             j.boolean("static", MD->isStatic());
             j.str("access", MD->getAccess() == AS_public ? "public" : MD->getAccess() == AS_private ? "private" : "protected");
